@@ -311,12 +311,12 @@ void small_free_memory_list::deallocate(void* mem) noexcept
     auto info =
         allocator_info(FOONATHAN_MEMORY_LOG_PREFIX "::detail::small_free_memory_list", this);
 
-    auto node = static_cast<unsigned char*>(detail::debug_fill_free(mem, node_size_, 0));
+    auto node = static_cast<unsigned char*>(mem);
 
-    auto chunk     = find_chunk_impl(node);
-    dealloc_chunk_ = chunk;
+    auto chunk = find_chunk_impl(node);
     // memory was never allocated from list
     detail::debug_check_pointer([&] { return chunk != nullptr; }, info, mem);
+    dealloc_chunk_ = chunk;
 
     auto offset = static_cast<std::size_t>(node - chunk->list_memory());
     // memory is not at the right position
@@ -326,6 +326,8 @@ void small_free_memory_list::deallocate(void* mem) noexcept
 
     auto index = offset / node_size_;
     FOONATHAN_MEMORY_ASSERT(index < chunk->no_nodes);
+    // only mark the memory as freed once the pointer is known to be a node of this list
+    detail::debug_fill_free(mem, node_size_, 0);
     chunk->deallocate(node, static_cast<unsigned char>(index));
 
     ++capacity_;
